@@ -2,7 +2,7 @@
 from datetime import timedelta
 
 from .. import hooks
-from ..gen import canon, mk_event, rand_grid, td_us
+from ..gen import big_n, canon, mk_event, rand_grid, td_us
 from ..model import norm, pairwise_disjoint, subset, subtract
 from . import _tx
 from ._tx import exc_viol, is_event_list, iv, snap, tmod, unmodified
@@ -11,11 +11,11 @@ ID = "C10"
 LEVEL = "exploration"
 ANCHOR_FILES = ["aw_transform/flood.py"]
 REQUIRED_COUNTERS = ["monitor.flood"]
-RULE = ("non-overlapping event sequences with distinct timestamps on a ms grid, 0-12 events, given in any order; "
+RULE = ("non-overlapping event sequences with distinct timestamps on a ms grid, 0-12 events (rarely 120-600), given in any order; in a third of them events end 1-999 µs past the grid; "
         "zero-length events; equal/differing data between neighbours; chains of 3+; gaps at pulsetime-1ms, =pulsetime, "
         "+1ms, 0; pulsetimes 0..10 s; non-trivial = at least one gap with 0 < gap <= pulsetime; signature = set of per-"
         "neighbour-pair classes (same/diff data, gap class, e1 longer/equal/shorter/zero) + length class")
-ASSUMPTIONS = ["interval edges are millisecond aligned: an Event cannot START between milliseconds, so no implementation could return exact pieces for sub-millisecond ends (C09 states this granularity explicitly)",
+ASSUMPTIONS = ["event STARTS are millisecond aligned (the Event model truncates them); event ENDS may lie between milliseconds - a third of the generated sequences have such ends",
                "domain: pairwise non-overlapping events (closed ends may touch), distinct timestamps, durations >= 0, pulsetime >= 0",
                "zero-length events count as neighbours when gaps are measured"]
 
@@ -100,7 +100,7 @@ def gen_case(rng, ctx):
         unit = 10**6
     pulse_ms = rng.choice([0, 1, 2, 1000, 3000, 5000, 5000, 10000, rng.randrange(0, 10001)])
     pu = pulse_ms * 1000
-    n = rng.randrange(0, 13)
+    n = big_n(rng, rng.randrange(0, 13))
     specs = []
     pos = base
     sticky = rng.random() < 0.5
@@ -123,6 +123,12 @@ def gen_case(rng, ctx):
         if nxt <= pos:           # distinct timestamps
             nxt = pos + 1000
         pos = nxt
+    if rng.random() < 0.3:
+        # events that END between milliseconds (durations keep microseconds, timestamps do not)
+        for a, b in zip(specs, specs[1:] + [None]):
+            room = (b["ts"] - a["ts"] - a["dur"]) if b else 10**6
+            if room >= 1000 and rng.random() < 0.6:
+                a["dur"] += rng.choice([1, 300, 500, 999, rng.randrange(1, 1000)])
     if rng.random() < 0.5:
         rng.shuffle(specs)
     p = pulse_ms / 1000 if pulse_ms % 1000 or rng.random() < 0.5 else pulse_ms // 1000
